@@ -2,7 +2,7 @@
    channel/sendinteractive.go (as translated on this run) invokes are the primitives the model's
    Channel.interactive_loop invokes, for every event list, every operation options and every
    sequence of read results (C12). *)
-From Scrapli Require Import Bytes Regex PlatformTypes Generated Channel DecideLang GeneratedSkel DecideLoops
+From Scrapli Require Import Bytes Regex PlatformTypes Generated Channel DecideLang GeneratedSkel DecideLemmas
                             InteractiveSrcDefs InteractiveSrc InteractiveSrcModel.
 From Coq Require Import List Bool Arith Lia.
 Import ListNotations.
